@@ -33,7 +33,7 @@ R = [
  (r"^re_compiler::ReCompiler::escape\|index:index\(a1\.pattern, Range", None, "close = from + position(..) of an element found inside pattern[from..], hence from <= close < len"),
  (r"^re_compiler::ReCompiler::escape\|Overflow:Sub\(a1\.capturing_open_paren_count, 1\)", None, "capturing_open_paren_count starts at 1 (FLAG-Q-XPATH compiler-init) and is only incremented"),
  (r"^re_compiler::ReCompiler::there_follows(::\{closure#0\})?\|index", None, "guarded by idx + n <= len with i < n (arithmetic; the decision table of there_follows is checked by THERE-FOLLOWS)"),
- (r"^re_compiler::ReCompiler::(piece|parse_expr|parse_branch)\|(BoundsCheck\(len\(a2\), 0\)|index:index(_mut)?\((a2|vec!\[[^\]]*\]), 0\))", None, "flag vectors are created with vec![x] (length 1) by every caller"),
+ (r"^re_compiler::ReCompiler::(piece|parse_expr|parse_branch)\|(BoundsCheck\(len\(a2\), 0\)|index:index(_mut)?\((a2|vec!\[[^\]]*\]), 0\))", None, "flag vectors are created with vec![x] (length 1) by every caller, or are the caller's own checked parameter (FLAGS-SLICE)"),
  (r"^re_compiler::ReCompiler::parse_branch\|index:index_mut\(box_assume_init_into_vec_unsafe\(Box::new_uninit\(\)\), 0\)", None, "quantifier_flags is vec![1] and is only indexed, never shortened"),
  (r"^re_compiler::ReCompiler::parse_character_class\|panic:panic\(\"internal error: entered unreachable code\"\)", None, "escape(true) cannot return BackReference: the in_square_brackets test returns Err first (ESC-TABLE digit arms)"),
  (r"^<op_sequence::SequenceIterator as std::iter::Iterator>::next\|panic:panic\(\"not yet implemented\"\)", None, "dominated by backtracking_limit = Some; the field's only store is None (INTERNAL-UNREACHABLE todo-unreachable)"),
